@@ -2,6 +2,9 @@
 From Coq Require Import NArith ZArith List.
 From KT Require Import Gen.Generated Gen.Alphabet Gen.GeneratedFacts Model.Kmer Model.Ops Model.Rows Model.Pipeline.
 From KT Require Import Proof.Sched Proof.Batch Proof.PipelineProof.
+From Coq Require Import String.
+From KT Require Model.Show.
+From KT Require Import Model.Reader Proof.Fasta Proof.Fastq Proof.ReaderProof Proof.ContainerProof.
 Import ListNotations.
 Open Scope N_scope.
 
@@ -38,6 +41,49 @@ Theorem C05_header_adds_exactly_one_line :
   forall k norm delim recs, s_ofile k norm true delim recs = header_bytes_spec k delim ++ s_ofile k norm false delim recs.
 Proof. exact header_adds_one_line. Qed.
 
+(* container independence, end to end on the executable models (reader: path suffix, gzip members, lines, parser;
+   then the file-level composition model): a FASTA file in any wrapping and a FASTQ file carrying the same
+   sequences, each cut into gzip members in any way, any batch limits: the same output bytes, the specified ones *)
+Theorem C05_container_independent :
+  forall pa ma ra ba la pq mq rq bq lq k norm hdr delim mem mem',
+  (1 <= k <= 31)%nat ->
+  format_of pa = Some Fasta -> concat ma = stream ba la -> Forall wf_rec ra ->
+  Forall (fun b => ~ In LF b) ba -> ~ In LF la -> printed ra (stream_lines ba la) ->
+  format_of pq = Some Fastq -> concat mq = stream bq lq -> Forall wf_recq rq ->
+  Forall (fun b => ~ In LF b) bq -> ~ In LF lq -> printed_qs rq (stream_lines bq lq) ->
+  map rseq ra = map qseq rq -> wf_bytes (map rseq ra) ->
+  oligo_cmd pa ma k norm hdr delim mem = oligo_cmd pq mq k norm hdr delim mem' /\
+  oligo_cmd pa ma k norm hdr delim mem = Some (s_ofile k norm hdr delim (map rseq ra)).
+Proof.
+  intros pa ma ra ba la pq mq rq bq lq k norm hdr delim mem mem' Hk Hfa Hca Hwa Hba Hla Hpa Hfq Hcq Hwq Hbq Hlq Hpq Hs Hw.
+  exact (container_independent pa ma ra ba la pq mq rq bq lq k norm hdr delim mem mem' Hk letters_ok
+           Hfa Hca Hwa Hba Hla Hpa Hfq Hcq Hwq Hbq Hlq Hpq Hs (wf_decode _ Hw)).
+Qed.
+
+Example C05_container_example :
+  oligo_cmd (Show.str "a.fa"%string) [Show.str ">r0 x
+ACG
+TAC
+>r1
+GG
+"%string] 2 true true [44] 0%nat
+  = oligo_cmd (Show.str "b.fq.gz"%string) [Show.str "@r0
+ACGTAC
++
+III"%string; Show.str "III
+@r1
+GG
++
+II
+"%string] 2 true true [44] 100%nat
+  /\ oligo_cmd (Show.str "a.fa"%string) [Show.str ">r0 x
+ACG
+TAC
+>r1
+GG
+"%string] 2 true true [44] 0%nat = Some (s_ofile 2 true true [44] [Show.str "ACGTAC"%string; Show.str "GG"%string]).
+Proof. vm_compute. split; reflexivity. Qed.
+
 (* non-vacuity: a complete schedule exists and gives the rows in order *)
 Example C05_example :
   let recs := [[65;67;71;84]; [67;67]; [65;65;65]] in
@@ -48,3 +94,4 @@ Print Assumptions C05_batch_writer_every_limit.
 Print Assumptions C05_mapped_writer_every_interleaving.
 Print Assumptions C05_writers_agree.
 Print Assumptions C05_header_adds_exactly_one_line.
+Print Assumptions C05_container_independent.
